@@ -381,9 +381,13 @@ def mangle_file_for_iso9660(orig, iso_level):
     # sequence starting from 0.
 
     valid_ext = ''
+    if iso_level == 4:
+        # A level 4 ISO allows 'anything', so just return the original.  The
+        # one exception is the semicolon: at all levels it separates the name
+        # from the version, so it cannot be a part of the name.
+        orig = orig.replace(';', '_')
     splitter = orig.split('.')
     if iso_level == 4:
-        # A level 4 ISO allows 'anything', so just return the original.
         if len(splitter) == 1:
             return orig, valid_ext
 
